@@ -58,7 +58,7 @@ Inductive stmt :=
 | SStrRef (fstr findex : name) (idx : list iexpr)              (* NiStringRef: inline string below 20.1.0.3, else index *)
 | SCStr (f : name) (idx : list iexpr)                          (* NUL-terminated *)
 | SRef (f : name) (idx : list iexpr)                           (* NiBlockRef / NiBlockPtr: f is the index field *)
-| SRefArr (fsize fkeep frefs fidx : name) (idx : list iexpr) (w : N)   (* NiBlockRef[Short]Array::Sync *)
+| SRefArrHead (fsize fkeep frefs fidx : name) (idx : list iexpr) (w : N)   (* NiBlockRef[Short]Array::Sync up to the element loop: clean (write mode), count, resize *)
 | SCleanRefs (fsize fkeep frefs fidx : name) (idx : list iexpr)        (* CleanInvalidRefs called directly *)
 | SVecSize (f : name) (idx : list iexpr) (w : N) (x : lvar)    (* NiVector::SyncSize: clamp, count; x := count *)
 | SResize (f : name) (idx : list iexpr) (n : expr)
